@@ -6,6 +6,8 @@ package main
 import (
 	"fmt"
 	"go/types"
+	"math"
+	"net"
 	"os"
 	"path/filepath"
 	"reflect"
@@ -13,6 +15,7 @@ import (
 	"sort"
 	"strconv"
 	"strings"
+	"time"
 	"unicode"
 
 	"golang.org/x/tools/go/ssa"
@@ -438,14 +441,14 @@ func init() {
 		// Add / Sub / Until / comparisons are exact arithmetic on it; timers fire nondeterministically
 		"time.Now": func(m *Machine, c *frame, fn *ssa.Function, a []value) value {
 			t := zero(fn.Signature.Results().At(0).Type()).(structV)
-			t[1] = mkConst(64, timeNowExt)
+			t[1] = mkConst(64, m.nowExt())
 			return t
 		},
 		"time.Since": func(m *Machine, c *frame, fn *ssa.Function, a []value) value {
-			return tBin("bvsub", mkConst(64, timeNowExt), timeExt(m, a[0]))
+			return tBin("bvsub", mkConst(64, m.nowExt()), timeExt(m, a[0]))
 		},
 		"time.Until": func(m *Machine, c *frame, fn *ssa.Function, a []value) value {
-			return tBin("bvsub", timeExt(m, a[0]), mkConst(64, timeNowExt))
+			return tBin("bvsub", timeExt(m, a[0]), mkConst(64, m.nowExt()))
 		},
 		"(time.Time).Add": func(m *Machine, c *frame, fn *ssa.Function, a []value) value {
 			t := copyVal(a[0]).(structV)
@@ -544,10 +547,15 @@ func init() {
 		"(time.Time).Sub": func(m *Machine, c *frame, fn *ssa.Function, a []value) value {
 			return tBin("bvsub", timeExt(m, a[0]), timeExt(m, a[1]))
 		},
-		"(time.Duration).String":      func(m *Machine, c *frame, fn *ssa.Function, a []value) value { return mkStr("0s") },
-		"(time.Time).Second":          func(m *Machine, c *frame, fn *ssa.Function, a []value) value { return mkConst(64, 0) },
-		"(time.Time).Nanosecond":      func(m *Machine, c *frame, fn *ssa.Function, a []value) value { return mkConst(64, 0) },
-		"(time.Duration).Seconds":     func(m *Machine, c *frame, fn *ssa.Function, a []value) value { return mkConst(64, 0) },
+		"(time.Duration).String": func(m *Machine, c *frame, fn *ssa.Function, a []value) value { return mkStr("0s") },
+		"(time.Time).Second":     func(m *Machine, c *frame, fn *ssa.Function, a []value) value { return mkConst(64, 0) },
+		"(time.Time).Nanosecond": func(m *Machine, c *frame, fn *ssa.Function, a []value) value { return mkConst(64, 0) },
+		"(time.Duration).Seconds": func(m *Machine, c *frame, fn *ssa.Function, a []value) value {
+			if t := m.asTerm(a[0]); t.IsConst() {
+				return mkConst(64, math.Float64bits(time.Duration(t.SVal()).Seconds()))
+			}
+			return mkConst(64, 0)
+		},
 		"(time.Time).UnixNano":        func(m *Machine, c *frame, fn *ssa.Function, a []value) value { return mkConst(64, 0) },
 		"(time.Time).Unix":            func(m *Machine, c *frame, fn *ssa.Function, a []value) value { return mkConst(64, 0) },
 		"(time.Duration).Nanoseconds": func(m *Machine, c *frame, fn *ssa.Function, a []value) value { return a[0] },
@@ -555,6 +563,10 @@ func init() {
 		"math/rand.Uint32": func(m *Machine, c *frame, fn *ssa.Function, a []value) value {
 			// nondeterministic; code that redraws on collision is explored for up to 3 draws per path
 			m.randDraws++
+			if m.clockTicks {
+				// selftest: concrete inputs only — a fixed sequence of distinct pseudo-random values
+				return mkConst(32, uint64(uint32(0x2545F491*uint32(m.randDraws)+0x9E3779B9)))
+			}
 			if m.randDraws > 3 {
 				m.outside("more than 3 rand.Uint32 draws on one path")
 			}
@@ -1145,7 +1157,8 @@ func (m *Machine) sprint(c *frame, args value, ln bool) value {
 // ---- native bridge for pure functions on concrete arguments ----
 
 var nativeBridge = map[string]interface{}{
-	"strings.Contains": strings.Contains, "strings.HasPrefix": strings.HasPrefix, "strings.HasSuffix": strings.HasSuffix,
+	"net.SplitHostPort": net.SplitHostPort,
+	"strings.Contains":  strings.Contains, "strings.HasPrefix": strings.HasPrefix, "strings.HasSuffix": strings.HasSuffix,
 	"strings.TrimPrefix": strings.TrimPrefix, "strings.TrimSuffix": strings.TrimSuffix, "strings.Split": strings.Split,
 	"strings.Join": strings.Join, "strings.Index": strings.Index, "strings.ToLower": strings.ToLower,
 	"strings.ToUpper": strings.ToUpper, "strings.Title": strings.Title, "strings.Replace": strings.Replace,
@@ -1281,6 +1294,12 @@ func (m *Machine) fromGo(rv reflect.Value, t types.Type, taint bool) value {
 		}
 		return out
 	}
+	if rv.Kind() == reflect.Interface && rv.Type().String() == "error" {
+		if rv.IsNil() {
+			return ifaceV{}
+		}
+		return m.newError(mkStr(rv.Interface().(error).Error()))
+	}
 	m.abort("fromGo: unsupported kind %v", rv.Kind())
 	return nil
 }
@@ -1311,6 +1330,16 @@ func (m *Machine) syncMapOf(p *value) *mapV {
 }
 
 const timeNowExt = 1000000000
+
+// nowExt: the engine's clock. The checks run on a constant clock (part of their stated environment);
+// `symgo selftest` lets it tick (1 µs per reading) because some of the repository's tests require elapsed
+// times to be non-zero.
+func (m *Machine) nowExt() uint64 {
+	if m.clockTicks {
+		m.clock += 1000
+	}
+	return timeNowExt + m.clock
+}
 
 type afterFuncState struct{ stopped, fired bool }
 
